@@ -331,4 +331,81 @@ example :
       requiredAfter txs 3 1 = 0 := by
   decide
 
+/-! ### The scan reports each delegated account once -/
+
+def CandOk (delegated : Nat → Bool) (n : Nat) (acc : List (Nat × Nat)) : Prop :=
+  (∀ p ∈ acc, delegated p.1 = true ∧ p.2 < n) ∧ (acc.map (·.1)).Nodup
+
+theorem CandOk.mono {delegated : Nat → Bool} {n m : Nat} {acc : List (Nat × Nat)}
+    (h : CandOk delegated n acc) (hnm : n ≤ m) : CandOk delegated m acc :=
+  ⟨fun p hp => ⟨(h.1 p hp).1, Nat.lt_of_lt_of_le (h.1 p hp).2 hnm⟩, h.2⟩
+
+theorem go_candOk (root : Root) (delegated : Nat → Bool) (es : List Entry) (i : Nat)
+    (pending : Bool) (acc : List (Nat × Nat)) (h : CandOk delegated i acc) :
+    CandOk delegated (i + es.length) (firstDebits.go root delegated es i pending acc) := by
+  induction es generalizing i pending acc with
+  | nil => simpa [firstDebits.go] using h
+  | cons e rest ih =>
+      have e1 : i + (e :: rest).length = (i + 1) + rest.length := by simp; omega
+      rw [e1]
+      have h' : CandOk delegated (i + 1) acc := h.mono (by omega)
+      unfold firstDebits.go
+      split
+      · exact ih _ _ _ h'
+      · split
+        · rename_i s hs
+          split
+          · rename_i hc
+            apply ih
+            simp only [Bool.and_eq_true, Bool.not_eq_true', List.any_eq_false] at hc
+            refine ⟨?_, ?_⟩
+            · intro p hp
+              rcases List.mem_append.mp hp with hp | hp
+              · exact h'.1 p hp
+              · simp at hp; subst hp; exact ⟨hc.1, by simp⟩
+            · rw [List.map_append, List.nodup_append]
+              refine ⟨h.2, by simp, ?_⟩
+              intro a ha b hb
+              simp at hb; subst hb
+              rcases List.mem_map.mp ha with ⟨p, hp, rfl⟩
+              intro heq
+              have := hc.2 p hp
+              simp [heq] at this
+          · exact ih _ _ _ h'
+        · exact ih _ _ _ h'
+
+/-- **one_candidate_per_delegated_account.** The scan reports only delegated accounts, each at
+    most once, and each with the index of an entry of the scanned journal. -/
+theorem firstDebits_sound (entries : List Entry) (root : Root) (delegated : Nat → Bool) :
+    (∀ p ∈ firstDebits entries root delegated, delegated p.1 = true ∧ p.2 < entries.length) ∧
+      ((firstDebits entries root delegated).map (·.1)).Nodup := by
+  have := go_candOk root delegated entries 0 (root.value != 0) [] ⟨by simp, by simp⟩
+  simpa [firstDebits, CandOk] using this
+
+
+/-- The candidates handed to `has_reserve_violation`: one per delegated account, carrying that
+    account's final balance. -/
+theorem delegatedDebits_sound (entries : List Entry) (root : Root) (delegated : Nat → Bool)
+    (finalBal : Nat → Nat) :
+    (∀ d ∈ delegatedDebits entries root delegated finalBal,
+        delegated d.address = true ∧ d.final = finalBal d.address) ∧
+      ((delegatedDebits entries root delegated finalBal).map (·.address)).Nodup := by
+  have h := firstDebits_sound entries root delegated
+  refine ⟨?_, ?_⟩
+  · intro d hd
+    simp only [delegatedDebits, List.mem_map] at hd
+    rcases hd with ⟨p, hp, rfl⟩
+    exact ⟨(h.1 p hp).1, rfl⟩
+  · have e : (delegatedDebits entries root delegated finalBal).map (·.address) =
+        (firstDebits entries root delegated).map (·.1) := by
+      simp [delegatedDebits, List.map_map, Function.comp_def]
+    rw [e]; exact h.2
+
+/-- Non-vacuity: account 5 (delegated) is debited twice and reported once, at its first debit;
+    account 6 (not delegated) is not reported; the root transfer is skipped. -/
+example :
+    firstDebits [.transfer 1 5 7, .transfer 5 2 3, .transfer 6 2 1, .transfer 5 2 1]
+      ⟨1, 7, some 5⟩ (· == 5) = [(5, 1)] := by
+  decide
+
 end Grevm.Reserve
